@@ -1,6 +1,6 @@
 #!/bin/bash
 # development: stop a running rebaseline / check (matches process names exactly, not command lines)
 pkill -x rebaseline_all. 2>/dev/null; pkill -f '^/bin/bash tools/rebaseline_all.sh' 2>/dev/null; pkill -f '^bash tools/rebaseline_all.sh' 2>/dev/null
-pkill -x slipvc 2>/dev/null
+pkill -x slipvc 2>/dev/null; pkill -x z3 2>/dev/null; pkill -x z3-new 2>/dev/null; pkill -x cvc5 2>/dev/null; pkill -x callfault 2>/dev/null
 sleep 1
 pgrep -x slipvc | wc -l
